@@ -270,6 +270,24 @@ def r14c(ctx, run):
                     "so data reachable only through an immutable pointer / `::` binding can be modified" % kind.lower(), {"kind": kind})
     if n < 6:
         raise LookupError("Mutable-through-deref rows: %d" % n)
+    # without a dereference the expression itself is the target: only a mutable binding (or `^mut x`, or a temporary) is Mutable outright,
+    # and a field is exactly as mutable as what holds it
+    for kind, cfg, deref, assignment, r in rows:
+        if deref:
+            continue
+        what = "get_mutability(%s %s, deref=false, assignment=%s) = %s" % (kind, cfg, assignment, res_name(r))
+        key = "%s:%s:a%d" % (kind, ",".join("%s=%s" % kv for kv in sorted(cfg.items(), key=str)), assignment)
+        if res_name(r) == "Mutable":
+            if kind in MUTABLE_EXEMPT:
+                continue
+            good = (kind == "Local" and cfg.get("local_mutable")) or (kind == "Ref" and cfg.get("ref_mutable"))
+            run.check(good, fn.site(), what, F, "mutable-target:" + key, fn.file, fn.ln,
+                      what + ": an expression that is itself the target of an assignment / `^mut` is Mutable outright only when it is a `:=` binding; everything else "
+                      "must ask what holds it (a field of a `::` binding, of a parameter or behind `^T` would become writable)")
+        if kind == "Member" and not cfg.get("prev_file"):
+            good = isinstance(r, Term) and r.op == "rec" and r.args[0] == Term("previous") and r.args[1] == assignment and r.args[2] == bool(cfg.get("prev_ptr"))
+            run.check(good, fn.site(), what, F, "member-holder:" + key, fn.file, fn.ln,
+                      what + ": a field that is itself the target is as mutable as its holder: the answer must be get_mutability(previous, assignment, holder is a pointer)")
     # deref-propagating arms recurse with the right flag
     for kind, cfg, deref, assignment, r in rows:
         if kind == "Deref":
